@@ -9,7 +9,7 @@ root = os.path.join(os.path.dirname(os.path.dirname(os.path.abspath(__file__))),
 notes = json.load(open(sys.argv[2])) if len(sys.argv) > 2 else {}
 entries = collections.OrderedDict()
 for line in open(log):
-    m = re.match(r"(C\d+) (m\d): (.*)", line.strip())
+    m = re.match(r"(\w+) (m\d): (.*)", line.strip())
     if not m:
         continue
     pid, stem, rest = m.groups()
